@@ -107,7 +107,7 @@ func runHostileMode() {
 		b := bases[r.Intn(len(bases))]
 		in := append([]byte(nil), b.stream...)
 		kind := ""
-		switch x := r.Intn(13); {
+		switch x := r.Intn(14); {
 		case x < 3:
 			kind = "flip-1"
 			k := r.Intn(len(in))
@@ -198,6 +198,27 @@ func runHostileMode() {
 			in = append(in, byte(r.Intn(8)))
 			in = binary.AppendUvarint(in, declared)
 			in = append(in, content...)
+		case x == 13:
+			kind = "zstd-window"
+			// a zstd frame header announcing a huge window (Window_Descriptor byte): the decoder
+			// allocates its history from that untrusted number
+			for tries := 0; !b.ps.zstd && tries < 50; tries++ {
+				b = bases[r.Intn(len(bases))]
+			}
+			in = append([]byte(nil), b.stream...)
+			done := false
+			for k := b.ps.hdrEnd; k+6 < len(in); k++ {
+				if in[k] == 0x28 && in[k+1] == 0xb5 && in[k+2] == 0x2f && in[k+3] == 0xfd && in[k+4]&0x20 == 0 {
+					in[k+5] = byte(0x88 + r.Intn(17)) // windowLog 27..29 with any mantissa: 128 MiB .. 960 MiB
+					done = true
+					if r.Bool() {
+						break
+					}
+				}
+			}
+			if !done {
+				kind = "zstd-window-skipped"
+			}
 		case x == 10:
 			kind = "arbitrary"
 			in = make([]byte, r.Intn(200))
